@@ -43,7 +43,7 @@ func c06Specs(tier string) []spaceSpec {
 	}
 	out := []spaceSpec{{sp: &gram.Space{Name: "full+end-1nt", Alpha: fullEnd, NNT: 1, Min: 2, Max: max}, maxLen: 3, alpha: ab}}
 	for _, s := range c04Specs(tier) {
-		if s.sp.Alpha.Name != fullAll.Name {
+		if s.sp.Alpha.Name != fullAll.Name && s.sp.Alpha.Name != fullTrimEnd.Name { // trims have errors of their own (C10)
 			out = append(out, s)
 		}
 	}
@@ -249,8 +249,73 @@ func describeFailed(failed map[attempt]bool, pos int) string {
 	return strings.Join(sortedKeys(m), ", ")
 }
 
+// wordAlternatives: S -> E1 E2 where each element is a small choice between WORDS over {a,b} (sequences of
+// terminals): any(w,w'), choice(w,w'), opt(w), many(w), and for E1 also choice(opt(w),w'), any(opt(w),w'). Ambiguous
+// heads with tails that fail at different depths are what make "the furthest failure" depend on the order in which
+// a sequence explores alternatives and on errors that come back TOGETHER with a result (Optional); a grammar of this
+// kind has 8..14 nodes, beyond the size-bounded spaces.
+func wordAlternatives(tier string) []string {
+	word := func(w string) string {
+		if len(w) == 1 {
+			return w
+		}
+		return "(seq " + strings.Join(strings.Split(w, ""), " ") + ")"
+	}
+	words := func(maxLen int) []string {
+		var out []string
+		for _, w := range gram.Inputs(ab, maxLen) {
+			if len(w) > 0 {
+				out = append(out, word(string(w)))
+			}
+		}
+		return out
+	}
+	l1, l2 := 2, 3
+	if tier == "thorough" {
+		l1 = 3
+	}
+	elements := func(ws []string, first bool) []string {
+		var out []string
+		for _, w := range ws {
+			out = append(out, "(opt "+w+")", "(many "+w+")")
+			for _, v := range ws {
+				out = append(out, "(any "+w+" "+v+")", "(choice "+w+" "+v+")")
+				if first {
+					out = append(out, "(choice (opt "+w+") "+v+")", "(any (opt "+w+") "+v+")")
+				}
+			}
+		}
+		return out
+	}
+	var out []string
+	for _, e1 := range elements(words(l1), true) {
+		for _, e2 := range elements(words(l2), false) {
+			out = append(out, "N0=(seq "+e1+" "+e2+")")
+		}
+	}
+	return out
+}
+
 func c06Run(env *explore.Env) *explore.Result {
 	res := explore.NewResult()
+	inputs4 := gram.Inputs(ab, 4)
+	for i, src := range wordAlternatives(env.Tier) {
+		if !env.Mine(int64(i)) {
+			continue
+		}
+		g, err := gram.Parse(src)
+		if err != nil {
+			res.Notes = append(res.Notes, "bad word-alternatives grammar: "+err.Error())
+			continue
+		}
+		if g.FirstTerminal() == 'b' {
+			res.Add("grammars_skipped_by_symmetry", 1)
+			continue
+		}
+		res.Add("grammars", 1)
+		res.Add("word_alternative_grammars", 1)
+		c06Grammar(res, g, inputs4, false)
+	}
 	eachGrammarPlaced(env, res, c06Specs(env.Tier), c04Seeds, func(g *gram.Grammar, inputs [][]byte, _ bool) {
 		c06Grammar(res, g, inputs, false)
 	})
@@ -278,7 +343,7 @@ func init() {
 	explore.Register(&explore.Check{
 		ID:    "C06",
 		Level: "model_checking",
-		Rule: "every grammar of the stated spaces whose repetitions consume input x {unnamed, every Any/Choice named} under Sentence(N0) x every input (terminal b built as a line feed), judged on every REJECTED input; " +
+		Rule: "every grammar of the stated spaces whose repetitions consume input x {unnamed, every Any/Choice named} under Sentence(N0) x every input (terminal b built as a line feed), judged on every REJECTED input; plus the word-alternatives space S -> E1 E2 (elements any/choice/opt/many over words of <= 2 resp. 3 terminals, optional alternatives inside Choice/Any) on inputs up to 4; " +
 			"F = furthest position at which a terminal or end-of-input was tried and failed (observed by wrappers); oracles: error form, independently computed line:column, p <= F, p == F when named, expectation really failed at p; " +
 			"transition = one parser call; non-trivial = a rejected case in which at least one terminal/end-of-input attempt failed (so F is defined)",
 		Assume: []string{"wrappers around every terminal observe all attempts; End attempts are derived from the end positions of the root's alternatives (Sentence = SeqOf(p, End))"},
